@@ -213,11 +213,17 @@ func genG11(repo string, w *Out) error {
 	}
 	var prog, defs []string
 	guardEqual := false
+	guardOther := ""
 	ast.Inspect(rr.Body, func(x ast.Node) bool {
 		switch n := x.(type) {
 		case *ast.IfStmt:
-			if pc.Src(n.Cond) == "!hdrDeadline.Equal(wholeReqDeadline)" && strings.Contains(pc.Src(n.Body), "p.conn.SetReadDeadline(wholeReqDeadline)") {
-				guardEqual = true
+			if strings.Contains(pc.Src(n.Body), "p.conn.SetReadDeadline(wholeReqDeadline)") && !strings.Contains(pc.Src(n.Cond), "deadlineErr") {
+				// the statement that re-arms the deadline after the head sits under a condition
+				if pc.Src(n.Cond) == "!hdrDeadline.Equal(wholeReqDeadline)" {
+					guardEqual = true
+				} else {
+					guardOther = pc.Src(n.Cond)
+				}
 			}
 			if n.Init != nil && len(n.Body.List) == 1 {
 				if as, ok := n.Body.List[0].(*ast.AssignStmt); ok && strings.HasSuffix(pc.Src(as.Lhs[0]), "Deadline") {
@@ -247,6 +253,9 @@ func genG11(repo string, w *Out) error {
 	if strings.Join(prog, "|") != strings.Join(wantProg, "|") {
 		// the model has one transcription of readRequest; the obligation ob_read_request_prog names the difference
 		w.Linef("(* read_request_prog differs from the transcribed order %q *)", comment(strings.Join(wantProg, "|")))
+	}
+	if guardOther != "" {
+		return fmt.Errorf("readRequest: the deadline is re-armed after the head under the condition %q, which is not a shape the model knows", guardOther)
 	}
 	w.DefBool("whole_set_guard_equal", guardEqual)
 
